@@ -32,6 +32,12 @@ RULE = (
     "one regular file to the checkout, stage + transfer the checkout into the SAME store; after the transfer every "
     "object that was in the store must still be there with the same bytes, the workspace unchanged, the transfer "
     "without failures, and the old and the new tree must both check out byte-identically (object and index level). "
+    "Input-space audit streams, every run, on one fixed 6-file tree: 29 forced object-level flag vectors (hardlink x "
+    "verify per call and store default, jobs, force x relink, quiet, link types singly and as fallback lists, State "
+    "none / real / shared, upload=True, staging class != final class, non-default callbacks, obj_name label) and 16 "
+    "index-level ones (save jobs/hardlink/verify, compare relink/delete, apply update_meta/jobs/links, root-key () "
+    "directory entry), plus sampled vectors in thorough; 12 kinds of pre-existing destination content x link type "
+    "for checkout(force=True); a second round trip (rebuild from the checkout gives the same id) per tree. "
     "Oracle-only stream: trees with 2-4 files above the 1 MiB large-file threshold (thread-pool hashing). "
     "A case is non-trivial when the tree has >= 2 files in >= 2 directories or exercises an error."
 )
@@ -232,7 +238,7 @@ def link_kind(path):
     return "hardlink" if st.st_nlink > 1 else "copy"
 
 
-def run_obj(env, src, stage_path, remove=None):
+def run_obj(env, src, stage_path, remove=None, idem=False):
     """object level: build + transfer + load + checkout. Returns an observation dict."""
     from dvc_objects.fs.local import localfs
 
@@ -275,6 +281,11 @@ def run_obj(env, src, stage_path, remove=None):
         obs["out_dirs"] = impl.walk_dirs(out)
         obs["out_exists"] = os.path.isdir(out)
         obs["links"] = sorted({link_kind(os.path.join(out, *r.split("/"))) for r in obs["out_files"]})
+        if idem:
+            # second round trip: rebuilding from the checked-out location gives the same object and Meta
+            _st2, meta2, obj2 = build(odb, out, localfs, "md5")
+            obs["idem"] = (obj2.hash_info.value == obs["oid"] and meta2.to_dict() == obs["meta"]
+                           and impl.walk_files(out) == obs["out_files"])
     return obs
 
 
@@ -344,6 +355,7 @@ def hist_case(ctx, case, files, src, walk, items_hist):
     finally:
         env.close()
     ctx.count("history:" + kind)
+    dim(ctx, "flag(obj): shallow=True transfer first" if kind == "shallow" else "history: object lost, re-transfer")
     if obs["failed"] or obs["pre_failed"]:
         # an honest failure report is not a violation of the round trip (never seen: local stores)
         ctx.count("history:transfer-reported-failure")
@@ -370,6 +382,406 @@ def hist_case(ctx, case, files, src, walk, items_hist):
     inp = cpair(cpair(cbytes(src), walk_term(walk)),
                 cpair("0" if kind == "shallow" else "1", clist([cbytes(g) for g in obs["gone"]])))
     items_hist.append((one, inp, exp))
+
+
+def dim(ctx, name, k=1):
+    d = ctx.extra.setdefault("input_dimensions", {})
+    d[name] = d.get(name, 0) + k
+
+
+def tree_dimensions(ctx, files, dirs, configs):
+    """COVERAGE_AUDIT sections 1-3: which name / shape dimensions this tree has"""
+    import unicodedata
+
+    names = {p for r in list(files) + list(dirs) for p in r.split("/")}
+    alldirs = set(dirs) | ancestors(files)
+    children = {}
+    for r in list(files) + list(alldirs):
+        children.setdefault(r.rsplit("/", 1)[0] if "/" in r else "", set()).add(r)
+    has = []
+    if any("\\" in n for n in names):
+        has.append("name: backslash")
+    if any(" " in n for n in names):
+        has.append("name: space")
+    if any(n.startswith(".") for n in names):
+        has.append("name: leading dot")
+    if any(any("\u0400" <= c <= "\u04ff" for c in n) for n in names):
+        has.append("name: Cyrillic")
+    if any(any("\u4e00" <= c <= "\u9fff" or "\uac00" <= c <= "\ud7a3" for c in n) for n in names):
+        has.append("name: CJK")
+    if any(any(ord(c) >= 0x10000 for c in n) for n in names):
+        has.append("name: non-BMP / emoji")
+    nfc = {unicodedata.normalize("NFC", n) for n in names}
+    if any(unicodedata.normalize("NFC", n) != n for n in names):
+        has.append("name: not NFC")
+    for kids in children.values():
+        base = [k.rsplit("/", 1)[-1] for k in kids]
+        if len({unicodedata.normalize("NFC", b) for b in base}) < len(base):
+            has.append("name: NFC twins in one directory")
+        if len({b.lower() for b in base}) < len(base):
+            has.append("name: case twins in one directory")
+        if any(a != b and b.startswith(a) for a in base for b in base):
+            has.append("name: sibling is a string prefix of another")
+    del nfc
+    if any(n.endswith(".dir") for r in files for n in [r.rsplit("/", 1)[-1]]):
+        has.append("name: file ending in .dir")
+    if any(d.rsplit("/", 1)[-1].endswith(".dir") for d in alldirs):
+        has.append("name: directory ending in .dir")
+    if any(len(n) == 1 for n in names):
+        has.append("name: 1 char")
+    if any(len(n) >= 200 for n in names):
+        has.append("name: >= 200 chars")
+    if not files:
+        has.append("shape: empty listing []")
+    for d in alldirs:
+        kids = children.get(d, set())
+        below = [f for f in files if f.startswith(d + "/")]
+        if not below and kids:
+            has.append("shape: directory holding only empty sub-directories")
+        if not kids:
+            has.append("shape: empty directory")
+        if len([k for k in kids if k in files]) == 1 and len(kids) == 1:
+            has.append("shape: directory with one file")
+        if below and kids and not any(k in files for k in kids) and d.count("/") >= 1:
+            has.append("shape: intermediate directory holding only sub-directories")
+    if any(r.count("/") >= 3 for r in files):
+        has.append("shape: depth >= 4")
+    by = {}
+    for r, b in files.items():
+        by.setdefault(b, []).append(r.rsplit("/", 1)[0] if "/" in r else "")
+    if any(len(v) != len(set(v)) for v in by.values()):
+        has.append("shape: identical contents in one directory")
+    if any(len(set(v)) > 1 for v in by.values()):
+        has.append("shape: identical contents across directories")
+    if any(b == b"" for b in files.values()):
+        has.append("shape: zero-length file")
+        if any(c[1] == "hardlink" for c in configs):
+            has.append("shape: zero-length file under hardlink type")
+        if any(c[1] == "symlink" for c in configs):
+            has.append("shape: zero-length file under symlink type")
+    for h in sorted(set(has)):
+        dim(ctx, h)
+
+
+# ------------------------------------------------------------------ COVERAGE_AUDIT section 4: flags
+AUDIT_TREE = {"a": b"x", "d/b": b"x", "d/c": b"x", "d/e/f": b"", "d/g": b"hello", "h/i/j/k": b"deep\r\n"}
+AUDIT_DIRS = ["d", "d/e", "h", "h/i", "h/i/j", "hollow", "hollow/e1"]
+
+OBJ_FLAG_DEFAULT = {"cls": "local", "final_cls": None, "types": ["copy"], "odb_verify": None, "upload": False,
+                    "checksum_jobs": None, "t_jobs": None, "t_verify": False, "t_hardlink": False,
+                    "co_force": False, "co_relink": False, "co_quiet": False, "state": "none", "callback": False,
+                    "obj_name": False}
+OBJ_FLAG_VECTORS = [
+    {},                                                                     # every default
+    {"t_hardlink": True}, {"t_verify": True}, {"t_hardlink": True, "t_verify": True},       # hardlink x verify
+    {"odb_verify": True}, {"odb_verify": True, "t_hardlink": True}, {"odb_verify": False, "t_verify": True},
+    {"t_jobs": 1, "checksum_jobs": 1}, {"t_jobs": 3, "checksum_jobs": 4},                   # batch boundaries (6 files)
+    {"co_force": True}, {"co_relink": True}, {"co_relink": True, "co_force": True}, {"co_quiet": True},
+    {"types": ["hardlink"]}, {"types": ["symlink"]},
+    {"types": ["reflink", "copy"]}, {"types": ["reflink", "hardlink", "symlink", "copy"]}, {"types": ["symlink", "copy"]},
+    {"types": ["hardlink"], "co_relink": True, "state": "real"},
+    {"state": "real"}, {"state": "shared"}, {"state": "shared", "cls": "base"},
+    {"upload": True}, {"upload": True, "cls": "base", "state": "real"},
+    {"cls": "local", "final_cls": "base"}, {"cls": "base", "final_cls": "local", "types": ["symlink"]},
+    {"callback": True}, {"obj_name": True}, {"cls": "base", "t_hardlink": True, "types": ["hardlink"]},
+]
+IDX_FLAG_DEFAULT = {"cls": "local", "types": ["copy"], "save_jobs": None, "save_hardlink": False, "save_verify": None,
+                    "cmp_relink": False, "cmp_delete": False, "update_meta": True, "apply_jobs": None,
+                    "apply_links": None, "state": "none", "root_entry": False}
+IDX_FLAG_VECTORS = [
+    {}, {"save_jobs": 2, "apply_jobs": 2}, {"save_hardlink": True}, {"save_verify": True},
+    {"save_hardlink": True, "save_verify": True}, {"cmp_relink": True}, {"cmp_delete": True},
+    {"cmp_relink": True, "cmp_delete": True}, {"update_meta": False}, {"apply_links": ["hardlink", "copy"]},
+    {"apply_links": ["symlink"]}, {"types": ["reflink", "symlink", "copy"]}, {"cls": "base", "state": "real"},
+    {"state": "shared"}, {"root_entry": True}, {"root_entry": True, "types": ["hardlink"], "cls": "base"},
+]
+
+
+class _SharedState:
+    st = None
+
+
+def _state_for(ctx, env_dir, kind):
+    from dvc_data.hashfile.state import State
+
+    if kind == "none":
+        return None, False
+    if kind == "real":
+        return State(root_dir=env_dir, tmp_dir=os.path.join(env_dir, "state")), True
+    if _SharedState.st is None:        # one State object shared by every "shared" vector of this run
+        d = ctx.fresh("shared-state")
+        _SharedState.st = State(root_dir=d, tmp_dir=os.path.join(d, "state"))
+    return _SharedState.st, False
+
+
+def audit_expected_store(files):
+    """independent of dvc_data: {oid: bytes} of the file objects and the directory object"""
+    exp = {impl.md5hex(b): b for b in files.values()}
+    lst = impl.canon_listing([(r, impl.md5hex(b)) for r, b in files.items()])
+    exp[impl.md5hex(lst) + ".dir"] = lst
+    return exp
+
+
+def obj_flag_case(ctx, vec, src, files):
+    import fsspec.callbacks
+    from dvc_objects.fs.local import localfs
+
+    from dvc_data.hashfile import load
+    from dvc_data.hashfile.build import build
+    from dvc_data.hashfile.checkout import checkout
+    from dvc_data.hashfile.hash_info import HashInfo
+    from dvc_data.hashfile.transfer import transfer
+
+    v = {**OBJ_FLAG_DEFAULT, **vec}
+    case = {"audit": "object-level flags", "flags": vec}
+    d = ctx.fresh("flags")
+    state, own = _state_for(ctx, d, v["state"])
+    try:
+        cfg = {"type": list(v["types"])}
+        if v["odb_verify"] is not None:
+            cfg["verify"] = v["odb_verify"]
+        if state is not None:
+            cfg["state"] = state
+        odb = impl.make_odb(v["cls"], os.path.join(d, "odb"), **cfg)
+        dest_path = os.path.join(d, "odb" if v["final_cls"] is None else "odb-final")
+        dest = odb if v["final_cls"] is None else impl.make_odb(v["final_cls"], dest_path, **cfg)
+        cb = {}
+        if v["callback"]:
+            class Count(fsspec.callbacks.Callback):
+                pass
+            cb = {"b": Count(), "t": Count(), "c": Count()}
+        bkw = {k: x for k, x in (("upload", v["upload"]), ("checksum_jobs", v["checksum_jobs"])) if x}
+        if cb:
+            bkw["callback"] = cb["b"]
+        staging, meta, obj = build(odb, src, localfs, "md5", **bkw)
+        hi = obj.hash_info
+        if v["obj_name"]:
+            hi = HashInfo(hi.name, hi.value, obj_name="data/dir-label")
+        tkw = {"shallow": False, "verify": v["t_verify"], "hardlink": v["t_hardlink"]}
+        if v["t_jobs"]:
+            tkw["jobs"] = v["t_jobs"]
+        if cb:
+            tkw["callback"] = cb["t"]
+        res = transfer(staging, dest, {hi}, **tkw)
+        out = os.path.join(d, "out")
+        ckw = {"force": v["co_force"], "relink": v["co_relink"], "quiet": v["co_quiet"], "state": state}
+        if cb:
+            ckw["progress_callback"] = cb["c"]
+        checkout(out, localfs, load(dest, hi), dest, **ckw)
+        got, got_dirs = impl.walk_files(out), impl.walk_dirs(out)
+        store = {o: b for o, (b, _m) in impl.walk_store(dest_path).items()}
+        md = meta.to_dict()
+        if res.failed:
+            ctx.oracle_fail("C02:flags-transfer-failed", f"flags {vec}: transfer reported failures", case)
+        if got != files or set(got_dirs) != ancestors(files):
+            ctx.oracle_fail("C02:flags-obj-roundtrip", f"flags {vec}: the checked-out tree differs from the source", case)
+        if store != audit_expected_store(files):
+            ctx.oracle_fail("C02:flags-store", f"flags {vec}: the store is not exactly the files' and the listing's "
+                            f"objects under their md5 names", case)
+        if md.get("nfiles") != len(files) or md.get("size") != sum(len(b) for b in files.values()):
+            ctx.oracle_fail("C02:flags-meta", f"flags {vec}: Meta {md}", case)
+        if impl.walk_files(src) != files:
+            ctx.oracle_fail("C02:flags-source-damaged", f"flags {vec}: the source tree changed", case)
+    except Exception as exc:  # noqa: BLE001
+        ctx.oracle_fail(f"C02:flags-exception:{type(exc).__name__}",
+                        f"object-level round trip with flags {vec} raised {type(exc).__name__}: {exc}", case)
+    finally:
+        if own:
+            state.close()
+        impl.rm_rf(d)
+    for k, x in v.items():
+        if x != OBJ_FLAG_DEFAULT[k] or not vec:
+            dim(ctx, f"flag(obj): {k}={x}")
+    if v["t_hardlink"] and (v["t_verify"] or v["odb_verify"]):
+        dim(ctx, "flag pair(obj): hardlink x verify")
+    if v["co_relink"] and v["co_force"]:
+        dim(ctx, "flag pair(obj): relink x force")
+    if len(v["types"]) > 1:
+        dim(ctx, "flag(obj): link types as a fallback list")
+    if v["final_cls"] and v["final_cls"] != v["cls"]:
+        dim(ctx, "flag(obj): staging store class != final store class")
+    ctx.case(case, True)
+
+
+def idx_flag_case(ctx, vec, src, files, dirs):
+    from dvc_objects.fs.local import localfs
+
+    from dvc_data.hashfile.build import build as obuild
+    from dvc_data.hashfile.meta import Meta
+    from dvc_data.hashfile.transfer import transfer
+    from dvc_data.index import DataIndex, DataIndexEntry, ObjectStorage, build, md5, save
+    from dvc_data.index.checkout import apply, compare
+
+    v = {**IDX_FLAG_DEFAULT, **vec}
+    case = {"audit": "index-level flags", "flags": vec}
+    d = ctx.fresh("iflags")
+    state, own = _state_for(ctx, d, v["state"])
+    try:
+        cfg = {"type": list(v["types"])}
+        if state is not None:
+            cfg["state"] = state
+        odb_path = os.path.join(d, "odb")
+        odb = impl.make_odb(v["cls"], odb_path, **cfg)
+        if v["root_entry"]:
+            # a directory entry at the ROOT key (): the stored object applied as the whole target
+            staging, _m, obj = obuild(odb, src, localfs, "md5")
+            transfer(staging, odb, {obj.hash_info}, shallow=False)
+            idx = DataIndex({(): DataIndexEntry(key=(), meta=Meta(isdir=True), hash_info=obj.hash_info)})
+            want_dirs = ancestors(files)
+        else:
+            idx = md5(build(src, localfs), state=state)
+            skw = {k: x for k, x in (("jobs", v["save_jobs"]), ("hardlink", v["save_hardlink"])) if x}
+            if v["save_verify"] is not None:
+                skw["verify"] = v["save_verify"]
+            save(idx, odb=odb, **skw)
+            want_dirs = set(dirs)
+        idx.storage_map.add_cache(ObjectStorage((), odb))
+        out = os.path.join(d, "out")
+        fails = []
+        akw = {"update_meta": v["update_meta"], "state": state, "onerror": lambda *a: fails.append(a)}
+        if v["apply_jobs"]:
+            akw["jobs"] = v["apply_jobs"]
+        if v["apply_links"]:
+            akw["links"] = list(v["apply_links"])
+        apply(compare(None, idx, relink=v["cmp_relink"], delete=v["cmp_delete"]), out, localfs, **akw)
+        got, got_dirs = impl.walk_files(out), impl.walk_dirs(out)
+        if got != files or fails:
+            ctx.oracle_fail("C02:flags-idx-roundtrip",
+                            f"flags {vec}: index-level round trip differs from the source ({len(fails)} failures)", case)
+        if set(got_dirs) != want_dirs:
+            ctx.oracle_fail("C02:flags-idx-dirs", f"flags {vec}: directories {got_dirs} != {sorted(want_dirs)}", case)
+        for oid, (data, _mode) in impl.walk_store(odb_path).items():
+            if impl.md5hex(data) != (oid[:-4] if oid.endswith(".dir") else oid):
+                ctx.oracle_fail("C02:flags-idx-store-name", f"flags {vec}: object {oid} is not named by its md5", case)
+        if impl.walk_files(src) != files:
+            ctx.oracle_fail("C02:flags-source-damaged", f"flags {vec}: the source tree changed", case)
+    except Exception as exc:  # noqa: BLE001
+        ctx.oracle_fail(f"C02:flags-idx-exception:{type(exc).__name__}",
+                        f"index-level round trip with flags {vec} raised {type(exc).__name__}: {exc}", case)
+    finally:
+        if own:
+            state.close()
+        impl.rm_rf(d)
+    for k, x in v.items():
+        if x != IDX_FLAG_DEFAULT[k] or not vec:
+            dim(ctx, f"flag(idx): {k}={x}")
+    if v["save_hardlink"] and v["save_verify"]:
+        dim(ctx, "flag pair(idx): hardlink x verify")
+    if v["root_entry"]:
+        dim(ctx, "shape: directory entry at the ROOT key () on the index route")
+    ctx.case(case, True)
+
+
+# ------------------------------------------------------------------ COVERAGE_AUDIT section 5: destination
+def _w(p, b):
+    os.makedirs(os.path.dirname(p), exist_ok=True)
+    with open(p, "wb") as f:
+        f.write(b)
+
+
+PREDEST = {
+    "the right file, unprotected copy": lambda o, odb: _w(o + "/a", b"x"),
+    "a corrupt unprotected copy": lambda o, odb: _w(o + "/d/g", b"HELLO"),
+    "a corrupt protected copy": lambda o, odb: (_w(o + "/d/g", b"HELLO"), os.chmod(o + "/d/g", 0o444)),
+    "an empty leftover": lambda o, odb: _w(o + "/d/g", b""),
+    "a dangling symlink": lambda o, odb: (os.makedirs(o + "/d"), os.symlink("/nonexistent/c02", o + "/d/g")),
+    "a live symlink into the cache": lambda o, odb: os.symlink(odb.oid_to_path(impl.md5hex(b"x")), o + "/a"),
+    "the right object hardlinked, protected": lambda o, odb: os.link(odb.oid_to_path(impl.md5hex(b"x")), o + "/a"),
+    "a file where a directory is wanted": lambda o, odb: _w(o + "/d", b"i am a file"),
+    "a directory where a file is wanted": lambda o, odb: _w(o + "/a/inner", b"inner"),
+    "an empty directory where a file is wanted": lambda o, odb: os.makedirs(o + "/a"),
+    "an untracked file": lambda o, odb: _w(o + "/zz/untracked", b"u"),
+    "an untracked empty directory": lambda o, odb: os.makedirs(o + "/emptyd/x"),
+}
+
+
+def predest_case(ctx, what, cfg, src, files):
+    """object-level checkout (force=True: the fault-free route) into a destination that already holds
+    something; the result must be exactly the stored tree and the store must be untouched"""
+    from dvc_objects.fs.local import localfs
+
+    from dvc_data.hashfile import load
+    from dvc_data.hashfile.build import build
+    from dvc_data.hashfile.checkout import checkout
+    from dvc_data.hashfile.transfer import transfer
+
+    case = {"audit": "pre-existing destination", "destination_holds": what, "configs": [list(cfg)]}
+    env = Env(ctx, tuple(cfg))
+    try:
+        odb_path, odb = env.odb()
+        staging, _m, obj = build(odb, src, localfs, "md5")
+        transfer(staging, odb, {obj.hash_info}, shallow=False)
+        out = env.out()
+        os.makedirs(out)
+        PREDEST[what](out, odb)
+        pre_dirs = set(impl.walk_dirs(out))
+        store0 = {o: b for o, (b, _m2) in impl.walk_store(odb_path).items()}
+        checkout(out, localfs, load(odb, obj.hash_info), odb, force=True, state=env.state)
+        got, got_dirs = impl.walk_files(out), set(impl.walk_dirs(out))
+        if got != files:
+            ctx.oracle_fail("C02:predest-roundtrip",
+                            f"{cfg}: checkout (force) into a destination holding {what}: the tree differs "
+                            f"(missing={sorted(set(files) - set(got))} extra={sorted(set(got) - set(files))} "
+                            f"changed={sorted(r for r in files if r in got and got[r] != files[r])})", case)
+        if not (ancestors(files) <= got_dirs <= ancestors(files) | pre_dirs):
+            ctx.oracle_fail("C02:predest-dirs", f"{cfg}: destination holding {what}: directories {sorted(got_dirs)}", case)
+        if {o: b for o, (b, _m2) in impl.walk_store(odb_path).items()} != store0:
+            ctx.oracle_fail("C02:predest-store-changed",
+                            f"{cfg}: checkout into a destination holding {what} changed the store", case)
+    except Exception as exc:  # noqa: BLE001
+        ctx.oracle_fail(f"C02:predest-exception:{type(exc).__name__}",
+                        f"{cfg}: checkout (force) into a destination holding {what} raised "
+                        f"{type(exc).__name__}: {exc}", case)
+    finally:
+        env.close()
+    dim(ctx, "destination already holds: " + what)
+    ctx.case(case, True)
+
+
+def audit_streams(ctx):
+    quick = ctx.tier == "quick"
+    base = ctx.fresh("audit")
+    src = os.path.join(base, "src")
+    make_source(src, AUDIT_TREE, AUDIT_DIRS)
+    try:
+        vecs = list(OBJ_FLAG_VECTORS)
+        ivecs = list(IDX_FLAG_VECTORS)
+        for _ in range(ctx.n(0, 40)):      # thorough: sampled combinations on top of the forced ones
+            vecs.append({
+                "cls": ctx.rng.choice(["local", "base"]), "final_cls": ctx.rng.choice([None, None, "local", "base"]),
+                "types": ctx.rng.choice([["copy"], ["hardlink"], ["symlink"], ["reflink", "hardlink", "copy"], ["symlink", "copy"]]),
+                "odb_verify": ctx.rng.choice([None, True, False]), "upload": ctx.rng.random() < 0.25,
+                "checksum_jobs": ctx.rng.choice([None, 1, 2, 7]), "t_jobs": ctx.rng.choice([None, 1, 2, 5, 6, 7]),
+                "t_verify": ctx.rng.random() < 0.4, "t_hardlink": ctx.rng.random() < 0.4,
+                "co_force": ctx.rng.random() < 0.4, "co_relink": ctx.rng.random() < 0.4,
+                "co_quiet": ctx.rng.random() < 0.3, "state": ctx.rng.choice(["none", "real", "shared"]),
+                "callback": ctx.rng.random() < 0.3, "obj_name": ctx.rng.random() < 0.3})
+        for _ in range(ctx.n(0, 24)):
+            ivecs.append({
+                "cls": ctx.rng.choice(["local", "base"]),
+                "types": ctx.rng.choice([["copy"], ["hardlink"], ["symlink"], ["reflink", "symlink", "copy"]]),
+                "save_jobs": ctx.rng.choice([None, 1, 2, 6]), "save_hardlink": ctx.rng.random() < 0.4,
+                "save_verify": ctx.rng.choice([None, True, False]), "cmp_relink": ctx.rng.random() < 0.4,
+                "cmp_delete": ctx.rng.random() < 0.4, "update_meta": ctx.rng.random() < 0.7,
+                "apply_jobs": ctx.rng.choice([None, 1, 3]),
+                "apply_links": ctx.rng.choice([None, None, ["copy"], ["hardlink", "copy"], ["symlink"]]),
+                "state": ctx.rng.choice(["none", "real", "shared"]), "root_entry": ctx.rng.random() < 0.2})
+        for vec in vecs:
+            obj_flag_case(ctx, vec, src, AUDIT_TREE)
+            # save(hardlink=True) of an earlier vector write-protects source files it linked: harmless
+        for vec in ivecs:
+            idx_flag_case(ctx, vec, src, AUDIT_TREE, AUDIT_DIRS)
+        links = ["copy", "hardlink", "symlink"]
+        for k, what in enumerate(PREDEST):
+            for j, link in enumerate(links):
+                if quick and j != k % 3:
+                    continue
+                predest_case(ctx, what, ["local" if (k + j) % 2 == 0 else "base", link, (k + j) % 3 == 0], src, AUDIT_TREE)
+    finally:
+        if _SharedState.st is not None:
+            _SharedState.st.close()
+            _SharedState.st = None
+        impl.rm_rf(base)
 
 
 T0 = 1_700_000_000  # a fixed integer second: every mtime of the re-stage history is set explicitly
@@ -802,7 +1214,13 @@ def tree_case(ctx, case, items_obj, items_idx, items_bad, items_hist=None):
             slash = case.get("trailing_slash") and ci % 2 == 0
             stage_path = src + "/" if slash else src
             try:
-                obs = run_obj(env, src, stage_path)
+                obs = run_obj(env, src, stage_path, idem=(ci == 0))
+                if obs.get("idem") is False:
+                    ctx.oracle_fail("C02:second-roundtrip-differs",
+                                    "rebuilding from the checked-out location gives another object id / Meta",
+                                    {**case, "configs": [list(cfg)]})
+                if "idem" in obs:
+                    dim(ctx, "second round trip (checkout -> rebuild -> same id)")
             except Exception as exc:  # noqa: BLE001
                 ctx.oracle_fail(f"C02:obj-exception:{type(exc).__name__}",
                                 f"object-level round trip raised {type(exc).__name__}: {exc}",
@@ -879,6 +1297,7 @@ def tree_case(ctx, case, items_obj, items_idx, items_bad, items_hist=None):
     if case.get("history") and with_model:
         hist_case(ctx, case, files, src, walk, items_hist if items_hist is not None else [])
     impl.rm_rf(base)
+    tree_dimensions(ctx, files, dirs, [tuple(c) for c in case["configs"]])
     ctx.count(f"files:{min(len(files), 60) // 5 * 5}+")
     ctx.count(f"depth:{max([r.count('/') + 1 for r in list(files) + dirs] or [0])}")
     ctx.count(f"empty-dirs:{'yes' if set(dirs) - ancestors(files) else 'no'}")
@@ -945,6 +1364,9 @@ def file_case(ctx, case, items_file):
         exp = vL([vB(obs["oid"]), vN(obs["meta"].get("size", 0)), v_store(obs["store"]), vL([vN(1), vB(obs["out"])])])
         items_file.append((one, cbytes(data), exp))
         ctx.count("single-file")
+        dim(ctx, "shape: single-file (non-Tree) target, object and index (key ()) route")
+        if not data:
+            dim(ctx, f"shape: zero-length single file under {cfg[1]}")
     ctx.case(case, len(data) > 0)
     impl.rm_rf(base)
 
@@ -956,6 +1378,22 @@ def pick_configs(ctx, k):
 
 
 CORPUS = [
+    # COVERAGE_AUDIT section 1: backslash, space, leading dot, Cyrillic, CJK, emoji, ".dir"-suffixed file and
+    # directory, prefix siblings, 1-char and 200-char names, a file and a directory differing only in case
+    {"files": {"we\\ird.txt": "01", "with space/.hidden": "02", "\u043f\u0440\u0438\u0432\u0435\u0442.txt": "03",
+               "\u6c49\u5b57/\U0001f600.bin": "04", "x.dir": "05", "y.dir/inner": "05", "imgs/a": "06",
+               "imgs_raw/a": "06", "imgs.bak": "07", "imgs.bak2/z": "", "q": "08", "L" * 200: "09",
+               "M" * 200 + "/" + "N" * 200: "0a", "Readme": "0b", "readme/x": "0c"},
+     "dirs": ["with space", "\u6c49\u5b57", "y.dir", "imgs", "imgs_raw", "imgs.bak2", "M" * 200, "readme"],
+     "configs": [["local", "hardlink", False], ["base", "symlink", True], ["local", "copy", True]],
+     "history": {"kind": "lost", "config": ["local", "symlink", False], "pick": [3, 7]}},
+    # section 2: depth >= 4 through directories that hold only sub-directories, a directory holding only empty
+    # sub-directories, a one-file directory, identical contents within and across directories, zero-length
+    # files under every link type
+    {"files": {"p/q/r/s/leaf": "6c", "p/q/r/s/twin": "6c", "one/only": "6c", "z0": "", "p/z1": ""},
+     "dirs": ["p", "p/q", "p/q/r", "p/q/r/s", "one", "hollow", "hollow/e1", "hollow/e2", "hollow/e2/e3"],
+     "configs": [["local", "hardlink", False], ["base", "hardlink", True], ["local", "symlink", False],
+                 ["base", "copy", False]], "trailing_slash": True},
     # both Unicode spellings of one name in one directory (composed / decomposed), and the Angstrom sign
     # next to its NFC form: no normalisation anywhere between the listing and the checked-out paths
     {"files": {"caf\u00e9.txt": "6e6663", "cafe\u0301.txt": "6e6664", "d/\u212b": "01", "d/\u00c5": "02",
@@ -976,7 +1414,7 @@ CORPUS = [
 
 def run(ctx):
     quick = ctx.tier == "quick"
-    n_trees = ctx.n(20, 45)
+    n_trees = ctx.n(14, 45)
     n_cfg = 3 if quick else 12
     max_depth, max_files = (4, 14) if quick else (6, 60)
     cases = [dict(c) for c in CORPUS]
@@ -1018,10 +1456,15 @@ def run(ctx):
         case = {"files": {r: b.hex() for r, b in files.items()}, "dirs": dirs, "configs": pick_configs(ctx, 1),
                 "dvcignore": where + ".dvcignore"}
         ignore_case(ctx, case, items_obj)
-    for i in range(ctx.n(8, 30)):
+    # a zero-length single file under every link type, every run
+    file_case(ctx, {"name": "empty file", "data": "",
+                    "configs": [["local", "hardlink", False], ["base", "symlink", True], ["local", "copy", False],
+                                ["base", "hardlink", True]]}, items_file)
+    for i in range(ctx.n(7, 30)):
         data = ctx.rng.choice(CONTENT_POOL) if ctx.rng.random() < 0.6 else ctx.rng.randbytes(ctx.rng.randint(1, 200))
         case = {"name": ctx.rng.choice(NAME_POOL), "data": data.hex(), "configs": pick_configs(ctx, 2 if quick else 12)}
         file_case(ctx, case, items_file)
+    audit_streams(ctx)
     items_restage = []
     restage_cases = [
         {"files": {"params.txt": b"rate=0.10\n".hex(), "d/x": "00010203", "d/y": "00010203", "e": ""}, "dirs": ["d", "g"],
@@ -1102,9 +1545,29 @@ def run(ctx):
                                        if v.kind != "oracle" else 0))
 
 
+def replay_audit(ctx, case):
+    base = ctx.fresh("audit")
+    src = os.path.join(base, "src")
+    make_source(src, AUDIT_TREE, AUDIT_DIRS)
+    try:
+        if case["audit"] == "object-level flags":
+            obj_flag_case(ctx, case["flags"], src, AUDIT_TREE)
+        elif case["audit"] == "index-level flags":
+            idx_flag_case(ctx, case["flags"], src, AUDIT_TREE, AUDIT_DIRS)
+        else:
+            predest_case(ctx, case["destination_holds"], case["configs"][0], src, AUDIT_TREE)
+    finally:
+        if _SharedState.st is not None:
+            _SharedState.st.close()
+            _SharedState.st = None
+        impl.rm_rf(base)
+
+
 def replay_case(ctx, case):
     problems = []
-    if "data" in case:
+    if "audit" in case:
+        replay_audit(ctx, case)
+    elif "data" in case:
         items = []
         file_case(ctx, case, items)
     elif case.get("dvcignore"):
